@@ -309,7 +309,7 @@ theorem toContinuable_ord (L : Int) (cont : Bool) (result : OpenResult) (lbo : O
           rw [hpc1] at hb; simp only [nd, hn]; exact hc.invE.kinds b hb, fun m hm => hc.invE.nodes m (by rw [← hn]; exact hm)⟩
     · -- the continuation line goes to a block whose lines all end at or before the line start
       have hge := lineEnd_ge src hc.ri.inRange
-      have hfresh := hc.inv.nrb lb.node (by rw [hkind]; rfl)
+      have hfresh := (hc.inv.nrb lb.node).1 (by rw [hkind]; rfl)
       have hs1 : s1 = ⟨r1, s.nodes.set lb.node
           { (nd s lb.node) with lines := (nd s lb.node).lines ++ [RCur.seg src c], linesNil := false }, s.pc⟩ := by
         cases s1; simp only at hr1 hpc1 hn; subst hr1 hpc1 hn; rfl
@@ -333,11 +333,12 @@ theorem toContinuable_ord (L : Int) (cont : Bool) (result : OpenResult) (lbo : O
             rcases List.mem_append.1 ht with h' | h'
             · exact hfresh.2.2 t h'
             · simp only [List.mem_singleton] at h'; rw [h']; exact ⟨hlt', rfl⟩⟩
-      refine ⟨fun i hr => ?_, fun i hk => ?_, fun i hk => ?_, fun t ht => ?_, fun b hb => ?_, fun m hm => ?_⟩
-      · rw [hnd] at hr ⊢
+      refine ⟨fun i => ?_, fun i hk => ?_, fun i hk => ?_, fun t ht => ?_, fun b hb => ?_, fun m hm => ?_⟩
+      · rw [hnd]
         split
-        · exact hord
-        · next hne => rw [if_neg hne] at hr; exact hc.invE.nrb i hr
+        · exact ⟨fun _ => hord, (fun hr => by simp only at hr; rw [hkind] at hr; cases hr),
+            (fun hr => by simp only at hr; rw [hkind] at hr; cases hr)⟩
+        · exact hc.invE.nrb i
       · rw [hnd] at hk ⊢
         split
         · simp
@@ -411,7 +412,7 @@ theorem openBlocksLoop_ord (L : Int) (blank cont : Bool) :
     have hn3 : s3.nodes = s.nodes := by rw [e3]
     have hr3 : s3.r = r2 := by rw [e3]
     have hc3 : Clean src L s3 c := by
-      refine ⟨?_, by rw [hr3]; exact hr2, hc.pad, hc.le⟩
+      refine ⟨?_, by rw [hr3]; exact hr2, hc.pad, hc.le, hc.padl⟩
       have hi := hc.inv
       exact ⟨fun i => by simp only [nd, hn3]; exact hi.nrb i, fun i => by simp only [nd, hn3]; exact hi.pne i,
         fun i => by simp only [nd, hn3]; exact hi.pnb i,
